@@ -245,6 +245,14 @@ pub fn gen_tree(rng: &mut Rng, mode: TreeMode) -> TreeSpec {
                     }
                 }
             }
+            7 => {
+                // standard input among the roots
+                if rng.chance(1, 2) {
+                    roots.push("-".into());
+                } else {
+                    roots.insert(0, "-".into());
+                }
+            }
             4 => {
                 // a root that is itself a symlink
                 let links: Vec<&Node> = nodes.iter().filter(|n| matches!(n.kind, NodeKind::Link(_))).collect();
@@ -396,6 +404,9 @@ pub fn materialise(base: &Path, tree: &TreeSpec) -> XdevGuard {
 /// a directory the visitor skips.
 pub fn expected_plain(_base: &Path, tree: &TreeSpec, skip: &BTreeSet<String>) -> BTreeSet<String> {
     let mut out = BTreeSet::new();
+    if tree.roots.iter().any(|r| r == "-") {
+        out.insert("<stdin>".to_string());
+    }
     for n in &tree.nodes {
         let under_root = tree.roots.iter().any(|r| &n.path == r || n.path.starts_with(&format!("{r}/")));
         if !under_root {
@@ -443,6 +454,10 @@ thread_local!(
 pub fn model_listing(base: &Path, tree: &TreeSpec, cfg: &WalkCfg) -> Vec<Seen> {
     let mut out = vec![];
     for r in &tree.roots {
+        if r == "-" {
+            out.push(Seen::Ok("<stdin>".into()));
+            continue;
+        }
         let p = base.join(r);
         let root_dev = std::fs::metadata(&p).ok().map(|m| m.dev());
         list(base, &p, 0, cfg, root_dev, &mut vec![], &mut out);
